@@ -584,7 +584,7 @@ pub fn c10_process_world(ctx: &Ctx, scn: &crate::props::c10::Scn, sc: &Scale, ex
                 }
                 // printed with <= 2 decimals: one unit of the last digit + the rounding tolerance of DESIGN 3.5
                 let tol = if is_ratio {
-                    0.011 + crate::cmp::C_RATIO * crate::cmp::EPS * sc.e_an * f / den
+                    0.011 + crate::cmp::ratio_tol(sc.e_an * f, den, va.iter().chain(vb.iter()).fold(0.0f64, |m, v| m.max(v.abs())), 0.0)
                 } else {
                     0.011 + crate::cmp::C_ABS * crate::cmp::EPS * sc.e_an.max(sc.n_an) * f / sc.area.max(1e-9)
                 };
@@ -676,7 +676,7 @@ pub fn json_balance_mismatch(a: &serde_json::Value, b: &serde_json::Value, sc: &
     if out.is_none() && d > crate::cmp::RATIO_MIN_DEN * sc.e_an * max_factor {
         for k in ["rer", "rer_nrb", "rer_onst"] {
             if let (Some(x), Some(y)) = (a.get(k).and_then(|v| v.as_f64()), b.get(k).and_then(|v| v.as_f64())) {
-                let rtol = crate::cmp::C_RATIO * crate::cmp::EPS * sc.e_an * max_factor / d + 0.0011 / d.max(1.0);
+                let rtol = crate::cmp::ratio_tol(sc.e_an * max_factor, d, x.abs().max(y.abs()), 0.0011);
                 if !((x - y).abs() <= rtol) {
                     out = Some(format!("{}: {} vs {} (tol {:e})", k, x, y, rtol));
                 }
